@@ -264,7 +264,17 @@ func (g *Gen) orAlternatives(valKind Kind) RV {
 			items = append(items, LitV(Q(pick(g.Rng, builtin))))
 		case 1:
 			if ts := g.typesOfKind(KString, KInt, KFloat, KBool, KObject, KArray); len(ts) > 0 && !g.NoRefs {
-				items = append(items, LitV(Q(pick(g.Rng, ts).Name)))
+				name := Q(pick(g.Rng, ts).Name)
+				switch g.Rng.IntN(4) {
+				case 0: // the rule-set spelling of a type reference
+					items = append(items, SetOf(Rule{"type", LitV(name)}))
+				case 1:
+					rs := []Rule{{"type", LitV(name)}, {"nullable", LitV("true")}}
+					g.Rng.Shuffle(2, func(i, j int) { rs[i], rs[j] = rs[j], rs[i] })
+					items = append(items, SetOf(rs...))
+				default:
+					items = append(items, LitV(name))
+				}
 				continue
 			}
 			items = append(items, LitV(Q(pick(g.Rng, builtin))))
@@ -388,6 +398,17 @@ func (g *Gen) Scalar(inObject bool) *Node {
 				n.R("max", b)
 				n.R("exclusiveMaximum", pick(rng, []string{"true", "false"}))
 			}
+			if rng.IntN(5) == 0 { // both bounds with both exclusivity flags, the value on one of the bounds
+				n.Rules = nil
+				lo, hi := decimalStr(m-int64(1+rng.IntN(3))*pow10(f), f), b
+				if rng.IntN(2) == 0 {
+					lo, hi = b, decimalStr(m+int64(1+rng.IntN(3))*pow10(f), f)
+				}
+				n.R("min", lo)
+				n.R("exclusiveMinimum", pick(rng, []string{"true", "false"}))
+				n.R("max", hi)
+				n.R("exclusiveMaximum", pick(rng, []string{"true", "false"}))
+			}
 			if rng.IntN(4) == 0 { // a second, loose bound on the other side
 				if _, ok := n.Rule("min"); ok {
 					n.R("max", decimalStr(m+int64(5000+rng.IntN(5000))*pow10(f), f))
@@ -507,6 +528,9 @@ func (g *Gen) enumItemsAround(lit string) []string {
 		var s string
 		json.Unmarshal([]byte(lit), &s)
 		cands = append(cands, Q(s+"x"), Q("other"), strconv.Itoa(rng.IntN(9)), "null")
+		if rng.IntN(3) == 0 { // strings that are different texts but equal when read as numbers
+			cands = append([]string{lit}, pick(rng, [][]string{{`"1.1"`, `"1.10"`, `"2.0"`}, {`"7"`, `"007"`}, {`"1000"`, `"1e3"`}, {`"0"`, `"-0"`, `"0.0"`}})...)
+		}
 		if _, err := strconv.Atoi(s); err == nil && s != "" {
 			cands = append(cands, s)
 		}
@@ -559,6 +583,9 @@ func (g *Gen) Value(depth int, inObject bool) *Node {
 			a, b := rng.IntN(len(g.Types)), rng.IntN(len(g.Types))
 			if a != b {
 				n = Ref(g.Types[a].Name, g.Types[b].Name)
+				if rng.IntN(8) == 0 { // a repeated name: refused today (1303); if it is ever accepted the AST must still show three
+					n = Ref(g.Types[a].Name, g.Types[b].Name, g.Types[a].Name)
+				}
 			}
 		}
 		if inObject && rng.IntN(4) == 0 {
